@@ -125,8 +125,15 @@ def check_lines(ctx, out, names, nt):
         elif k == "ERR3":
             f = body.split("|")
             kinds = ["LocalDate", "LocalTime", "LocalDateTime", "OffsetDateTime", "ZonedDateTime", "ZonedDateTime", "OffsetDateTime"]
+            comp_ = [int(x_) for x_ in f[0].split()]
+            time_valid = (comp_[3] < 24 and comp_[4] < 60 and comp_[5] < 60) or comp_[3:6] == [24, 0, 0]
             for kind, cell in zip(kinds, f[1:]):
                 e, hx = cell.split()
+                if not time_valid and kind != "LocalDate" and unhex(hx) != "<Invalid %s>" % kind:
+                    # independent validity oracle for the time of day: 00:00:00..23:59:59 and 24:00:00 are the valid times
+                    ctx.violation("invalid-time-prints:" + kind, {"line": "ERR3 " + f[0]},
+                                  "a %s with the invalid time %02d:%02d:%02d printed %r instead of its placeholder (isError() = %s)" %
+                                  (kind, comp_[3], comp_[4], comp_[5], unhex(hx), e))
                 if e == "1":
                     nt.add(("err3", kind, f[0].split()[-1] == "99999"))
                     if unhex(hx) != "<Invalid %s>" % kind:
@@ -163,7 +170,7 @@ def run(ctx):
     lines = ["ERR"]
     # error values with exactly one invalid part (and valid controls)
     for comp in ((2018, 8, 31, 13, 48, 1), (2018, 13, 1, 0, 0, 0), (2018, 0, 1, 0, 0, 0), (2018, 1, 0, 0, 0, 0), (2018, 1, 32, 0, 0, 0),
-                 (2018, 1, 1, 25, 0, 0), (2018, 1, 1, 0, 60, 0), (2018, 1, 1, 0, 0, 60), (2060, 6, 1, 12, 0, 0), (1990, 6, 1, 12, 0, 0),
+                 (2018, 1, 1, 25, 0, 0), (2018, 1, 1, 0, 60, 0), (2018, 1, 1, 0, 0, 60), (2018, 1, 1, 24, 0, 1), (2018, 1, 1, 24, 1, 0), (2018, 1, 1, 24, 30, 30), (2060, 6, 1, 12, 0, 0), (1990, 6, 1, 12, 0, 0),
                  (2127, 12, 31, 23, 59, 59), (1872, 1, 1, 0, 0, 0)):
         for off in (0, -480, 99999):
             lines.append("ERR3 %d %d %d %d %d %d %d" % (comp + (off,)))
